@@ -668,6 +668,29 @@ def run_shard(desc, ctx):
                 ctx.violation("parse-accepts-altered-character:separator", f"'#' replaced by {ch!r} was accepted", {"op": "parse", "s": s})
             else:
                 ctx.rejected_by_exception += 1
+    # the same descriptor as a quoted value inside a JSON account map (Specter-Desktop export): whether that form is read is
+    # only observed; IF it is read, a replaced '#' must still be noticed there
+    import json as _json
+
+    for d, m, records in small[:1]:
+        text = str(d)
+        forms = {"account-map": _json.dumps({"label": "x", "blockheight": 0, "descriptor": text}).replace("/", "\\/"),
+                 "descriptor-not-last": _json.dumps({"descriptor": text, "label": "x"}), "quoted": '"' + text + '"'}
+        for name, blob in forms.items():
+            o = _try(_SM.parse, blob)
+            ok = o[0] == "ok" and str(o[1]) == text
+            ctx.count("observed:embedded-descriptor:%s:%s" % (name, "read" if ok else "refused"))
+            if not ok:
+                continue
+            for ch in ('"', "'", ",", "}", " ", "x", ":"):
+                s = blob.replace("#", ch)
+                o2 = _try(_SM.parse, s)
+                ctx.monitor("driver.separator-substitution")
+                ctx.count("subst:separator-in-embedded-form")
+                if o2[0] == "ok":
+                    ctx.violation("parse-accepts-altered-character:separator", f"'#' replaced by {ch!r} inside the {name} form was accepted", {"op": "parse", "s": s})
+                else:
+                    ctx.rejected_by_exception += 1
     one = [b for b in small if len(b[2]) == 1]
     if p["exhaustive"] and one:
         substitutions(ctx, rng2, str(one[0][0]))
